@@ -40,10 +40,12 @@ ASSUMPTIONS = [
     "alive purely on the C++ side of an autograd graph without a Python wrapper is invisible",
     "a one-off cached tensor (memoised quadrature nodes, lazily created torch internals) is not a leak: only growth "
     "on three consecutive identical cycles after a warm-up cycle is",
-    "aborted calls (callee raises) are outside the statement (it speaks of released outputs) and are not injected here",
+    "aborted calls are outside the statement (it speaks of released outputs): a history whose call raises is counted, "
+    "not judged; an injected LAPACK failure that xitorch absorbs by retrying (the call returns) is judged",
 ]
 REAL = ["all xitorch functionals from /repo working tree", "torch autograd", "CPython reference counting"]
 STUB = ["the user's functions/modules/operators (xsim.actors)", "the cyclic garbage collector (pinned: disabled)",
+        "torch.linalg.solve (fails once per call at a drawn invocation in some histories)",
         "the training loop (the history of calls and releases)"]
 
 
@@ -88,7 +90,9 @@ def draw_history(cs, cfg):
     sc = {}
     sc["n"] = cs.randint(1, 3, "n")
     sc["valseed"] = cs.draw(1000, "valseed")
-    sc["family"] = cs.weighted([4, 1, 1], "family")   # 0 function objects, 1 linear operators, 2 interp/squad
+    # one history in eight is dedicated to the internal-failure path (dense solve with shifts, LAPACK failing once)
+    linalg_scenario = cs.bool("linalg_scenario", 1, 8)
+    sc["family"] = 1 if linalg_scenario else cs.weighted([4, 1, 1], "family")   # 0 function objects, 1 linear operators, 2 interp/squad
     sc["kind2"] = None
     sc["composite"] = 0
     if sc["family"] == 0:
@@ -113,6 +117,13 @@ def draw_history(cs, cfg):
         fam = 1 if sc["family"] == 1 else 0
         sc["F"] = C10.draw_functional(cs, {"family": fam, "kind": sc["kind"], "composite": sc["composite"]})
     sc["usage"] = ["fwd", "bwd", "bwd2"][cs.weighted([1, 2, 2], "usage")]
+    # a usually-successful internal call fails once per call: the k-th torch.linalg.solve of every call raises
+    # a LAPACK error (xitorch retries with a regularised matrix where it expects singular systems)
+    sc["linalg_fault"] = 0
+    if linalg_scenario:
+        sc["F"] = {"F": "solve", "method": cs.choice(["exactsolve", "custom_exactsolve"], "lm"),
+                   "E": not cs.bool("no_E", 1, 4), "bck": cs.choice([None, "exactsolve"], "lbck"), "knobs": {}}
+        sc["linalg_fault"] = cs.randint(1, 2, "linalg_k")
     sc["persist"] = cs.bool("persistent_object", 1, 2)
     sc["cycle_len"] = cs.randint(1, 3, "cycle_len")
     sc["release"] = [cs.draw(3, "rel") for _ in range(3)]
@@ -130,6 +141,43 @@ def one_call(sc, env_holder):
         if sc["persist"]:
             env_holder.append(env)
     torch.manual_seed(sc["opseed"])
+    F = sc["F"]
+    if sc.get("linalg_fault"):
+        return _with_linalg_fault(sc, env)
+    return _one_call_body(sc, env)
+
+
+class _FaultyLinalgSolve(object):
+    """the k-th call raises what LAPACK raises for a singular system; later calls go through"""
+
+    def __init__(self, k):
+        self.k = k
+        self.n = 0
+        self.fired = 0
+        self.orig = torch.linalg.solve
+
+    def __call__(self, *a, **kw):
+        self.n += 1
+        if self.n == self.k:
+            self.fired += 1
+            raise torch._C._LinAlgError("injected: linalg.solve: The solver failed because the input matrix is singular.")
+        return self.orig(*a, **kw)
+
+
+def _with_linalg_fault(sc, env):
+    w = _FaultyLinalgSolve(sc["linalg_fault"])
+    torch.linalg.solve = w
+    try:
+        out = _one_call_body(sc, env)
+    finally:
+        torch.linalg.solve = w.orig
+    SIM.count("fault.linalg_error", w.fired)
+    if w.fired:
+        SIM.count("reach.call_survived_linalg_error")
+    return out
+
+
+def _one_call_body(sc, env):
     F = sc["F"]
     if sc["family"] == 2:
         from xitorch.interpolate import Interp1D
@@ -209,6 +257,9 @@ def run(cs, cfg):
     except Exception as e:   # the functional rejected this configuration: nothing to judge
         raised = "%s: %s" % (type(e).__name__, str(e)[:200])
         e = None
+    for k_, v_ in SIM.counters.items():
+        cnt(k_, v_)
+    decoded["linalg_fault"] = sc.get("linalg_fault", 0)
     decoded["counts"] = counts
     decoded["bytes"] = nbytes
     decoded["events"] = SIM.seq
